@@ -6,6 +6,7 @@ import (
 	"reflect"
 	"sort"
 	"strings"
+	"time"
 
 	"github.com/jhump/grpctunnel"
 	"github.com/jhump/grpctunnel/tunnelpb"
@@ -23,7 +24,9 @@ type TunCfg struct {
 	Cap        int
 	OpenMD     metadata.MD
 	WithBreak  bool
-	Label      string
+	// OpenTimeout puts a deadline on the context that opens the tunnel.
+	OpenTimeout time.Duration
+	Label       string
 	// Over, if set, carries the tunnel over another tunnel channel (nesting) instead of
 	// a memconn net. Only forward tunnels are nested.
 	Over grpc.ClientConnInterface
@@ -77,6 +80,7 @@ func (c TunCfg) FlowControlled() bool { return !c.Legacy && !c.ClientNoFC && !c.
 // returns once the tunnel is usable (or failed to start).
 func (w *World) OpenTunnel(cfg TunCfg) *Tun {
 	t := &Tun{W: w, Cfg: cfg}
+	w.Tuns = append(w.Tuns, t)
 	label := cfg.Label
 	if label == "" {
 		label = "T"
@@ -132,6 +136,9 @@ func (w *World) OpenTunnel(cfg TunCfg) *Tun {
 		carrier = n
 	}
 	ctx, cancel := context.WithCancel(context.Background())
+	if cfg.OpenTimeout > 0 {
+		ctx, cancel = context.WithTimeout(context.Background(), cfg.OpenTimeout)
+	}
 	t.Cancel = cancel
 	if cfg.OpenMD != nil {
 		ctx = metadata.NewOutgoingContext(ctx, cfg.OpenMD.Copy())
